@@ -28,10 +28,49 @@ type C04Opts struct {
 	NoEx    bool     `json:"examples_validation_disabled,omitempty"`
 	NoExt   bool     `json:"extensions_with_ref_prohibited,omitempty"`
 	Noop    bool     `json:"noop_option,omitempty"` // an option that changes no setting (the options struct then lives in the context)
+	Seq     []string `json:"sequence,omitempty"`    // options in call order (Enable*/Disable* pairs): the last call for a setting decides
 }
 
 func (o C04Opts) has() bool {
-	return len(o.Allowed) > 0 || o.Fmt || o.NoPat || o.NoDef || o.NoEx || o.NoExt || o.Noop
+	return len(o.Allowed) > 0 || o.Fmt || o.NoPat || o.NoDef || o.NoEx || o.NoExt || o.Noop || len(o.Seq) > 0
+}
+
+var c04SeqOpts = map[string]func() openapi3.ValidationOption{
+	"EnableSchemaFormatValidation": openapi3.EnableSchemaFormatValidation, "DisableSchemaFormatValidation": openapi3.DisableSchemaFormatValidation,
+	"EnableSchemaPatternValidation": openapi3.EnableSchemaPatternValidation, "DisableSchemaPatternValidation": openapi3.DisableSchemaPatternValidation,
+	"EnableSchemaDefaultsValidation": openapi3.EnableSchemaDefaultsValidation, "DisableSchemaDefaultsValidation": openapi3.DisableSchemaDefaultsValidation,
+	"EnableExamplesValidation": openapi3.EnableExamplesValidation, "DisableExamplesValidation": openapi3.DisableExamplesValidation,
+	"AllowExtensionsWithRef": openapi3.AllowExtensionsWithRef, "ProhibitExtensionsWithRef": openapi3.ProhibitExtensionsWithRef,
+}
+
+// the settings a sequence of option calls denotes: each call sets the one setting it names
+func (o C04Opts) effective() C04Opts {
+	e := o
+	for _, n := range o.Seq {
+		switch n {
+		case "EnableSchemaFormatValidation":
+			e.Fmt = true
+		case "DisableSchemaFormatValidation":
+			e.Fmt = false
+		case "EnableSchemaPatternValidation":
+			e.NoPat = false
+		case "DisableSchemaPatternValidation":
+			e.NoPat = true
+		case "EnableSchemaDefaultsValidation":
+			e.NoDef = false
+		case "DisableSchemaDefaultsValidation":
+			e.NoDef = true
+		case "EnableExamplesValidation":
+			e.NoEx = false
+		case "DisableExamplesValidation":
+			e.NoEx = true
+		case "AllowExtensionsWithRef":
+			e.NoExt = false
+		case "ProhibitExtensionsWithRef":
+			e.NoExt = true
+		}
+	}
+	return e
 }
 
 type C04Case struct {
@@ -451,7 +490,8 @@ func (e *c04Emitter) emit(n *DNode) string {
 	return name
 }
 
-func (o C04Opts) Coq() string {
+func (o0 C04Opts) Coq() string {
+	o := o0.effective()
 	return fmt.Sprintf("(mkVO %s %s %s %s %s %s %s)", coqBool(o.has()), coqStrList(o.Allowed), coqBool(o.Fmt), coqBool(o.NoPat),
 		coqBool(o.NoDef), coqBool(o.NoEx), coqBool(o.NoExt))
 }
@@ -478,6 +518,9 @@ func (o C04Opts) goOpts() []openapi3.ValidationOption {
 	}
 	if o.Noop {
 		out = append(out, openapi3.EnableSchemaPatternValidation())
+	}
+	for _, n := range o.Seq {
+		out = append(out, c04SeqOpts[n]())
 	}
 	return out
 }
@@ -567,6 +610,8 @@ func c04Base(r *Rng) map[string]any {
 				"examples", jobj("e1", jref("examples", "E1"), "e2", jobj("value", jobj("name", "tom")))))),
 		),
 		"responses", jobj(
+			"Moved", jobj("description", "moved", "headers", jobj("Location", jobj("schema", jobj("type", "string", "format", "uri"), "required", true)),
+				"links", jobj("there", jobj("operationRef", "#/paths/~1pets/get"))),
 			"NotFound", jobj("description", "not found", "content", jobj("application/json", jobj("schema",
 				jobj("type", "object", "properties", jobj("message", jobj("type", "string"))), "example", jobj("message", "gone"))),
 				"headers", jobj("X-Rate", jref("headers", "X-Rate")), "links", jobj("again", jref("links", "L1"))),
@@ -614,7 +659,9 @@ func c04Base(r *Rng) map[string]any {
 		"responses", jobj("200", jobj("description", "a pet", "content", jobj("application/json", jobj("schema", jref("schemas", "Ext")))),
 			"4XX", jref("responses", "NotFound")))
 	delPet := jobj("parameters", []any{jobj("name", "petId", "in", "path", "required", true, "style", "label", "explode", true, "schema", jobj("type", "string"))},
-		"responses", jobj("204", okResp("deleted")))
+		"responses", jobj("204", jobj("description", "deleted", "headers", jobj("X-Rate", jref("headers", "X-Rate"), "X-Gone", jobj("schema", jobj("type", "boolean"))),
+			"links", jobj("list", jobj("operationId", "listPets"), "shared", jref("links", "L1"))),
+			"default", jref("responses", "Moved")))
 	files := jobj("operationId", "getFile",
 		"parameters", []any{
 			jobj("name", "a", "in", "path", "required", true, "style", "matrix", "schema", jobj("type", "integer")),
@@ -1063,6 +1110,11 @@ func c04Random(r *Rng) C04Case {
 		if r.Chance(30) {
 			c.Opts.Allowed = []string{Pick(r, []string{"bogus", "description", "x-sibling", "x-extra"})}
 		}
+		if r.Chance(35) {
+			for k := 1 + r.Intn(3); k > 0; k-- {
+				c.Opts.Seq = append(c.Opts.Seq, Pick(r, sortedKeys(c04SeqOpts)))
+			}
+		}
 	}
 	apply := func(m *c04Mut) {
 		locs := c04Locs(c.Doc)
@@ -1149,6 +1201,58 @@ func c04Directed() []C04Case {
 			m.at(NewRng(uint64(li)), &ls[li])
 			c.Muts = []string{m.name + " " + ls[li].kind + "@" + ls[li].path}
 			out = append(out, c)
+		}
+	}
+	// the whole (location, style, explode) table, for parameters and for headers
+	for _, in := range []string{"path", "query", "header", "cookie", "hdr"} {
+		for _, style := range []string{"", "simple", "label", "matrix", "form", "spaceDelimited", "pipeDelimited", "deepObject"} {
+			for _, explode := range []any{nil, true, false} {
+				c := C04Case{Doc: c04Base(NewRng(99)), Opts: C04Opts{Noop: flip}}
+				flip = !flip
+				paths := c.Doc["paths"].(map[string]any)
+				set := func(p map[string]any) {
+					if style != "" {
+						p["style"] = style
+					} else {
+						delete(p, "style")
+					}
+					if explode != nil {
+						p["explode"] = explode
+					} else {
+						delete(p, "explode")
+					}
+				}
+				switch in {
+				case "path":
+					set(paths["/pets/{petId}"].(map[string]any)["delete"].(map[string]any)["parameters"].([]any)[0].(map[string]any))
+				case "hdr":
+					set(c.Doc["components"].(map[string]any)["headers"].(map[string]any)["X-Rate"].(map[string]any))
+				default:
+					op := paths["/pets"].(map[string]any)["get"].(map[string]any)
+					p := jobj("name", "sm", "in", in, "schema", jobj("type", "object", "additionalProperties", jobj("type", "string")))
+					set(p)
+					op["parameters"] = append(op["parameters"].([]any), p)
+				}
+				c.Muts = []string{fmt.Sprintf("style-table %s/%s/%v", in, style, explode)}
+				out = append(out, c)
+			}
+		}
+	}
+	// every ordered pair of option calls, on documents each rule of which an option can switch off is violated once
+	names := sortedKeys(c04SeqOpts)
+	for _, a := range names {
+		for _, b := range names {
+			for _, mutName := range []string{"schema-default-violates", "example-violates-schema", "schema-bad-pattern", "schema-unknown-format", "ref-sibling-extension"} {
+				c := C04Case{Doc: c04Base(NewRng(99)), Opts: C04Opts{Seq: []string{a, b}}}
+				for i := range c04Muts {
+					if c04Muts[i].name == mutName {
+						if pos := c04Muts[i].f(NewRng(uint64(len(out))), c.Doc, c04Locs(c.Doc)); pos != "" {
+							c.Muts = []string{mutName + " " + pos}
+						}
+					}
+				}
+				out = append(out, c)
+			}
 		}
 	}
 	// unresolved references, one per position
